@@ -196,7 +196,26 @@ def group_fields(ctx, rep, rule: str) -> None:
     repo = ctx.repo
     key = repo.method(DS, "_construct_param_group_key")
     rets = [n for n in A.walk_no_nested(key.node) if isinstance(n, ast.Return)]
-    ok = len(rets) == 1 and _norm(rets[0].value) == "'/'.join(sorted((param_to_key[param] for param in group[PARAMS])))"
+
+    def deref(e):
+        while isinstance(e, ast.Name):
+            ds = A.assignments_to(key.node, e.id)
+            if len(ds) != 1:
+                break
+            e = ds[0]
+        return e
+
+    ok = False
+    if len(rets) == 1:
+        v = deref(rets[0].value)
+        if isinstance(v, ast.Call) and isinstance(v.func, ast.Attribute) and v.func.attr == "join" and isinstance(v.func.value, ast.Constant) and isinstance(v.func.value.value, str) and v.func.value.value and len(v.args) == 1:
+            srt = deref(v.args[0])
+            if isinstance(srt, ast.Call) and isinstance(srt.func, ast.Name) and srt.func.id == "sorted" and len(srt.args) == 1 and not srt.keywords:
+                gen = deref(srt.args[0])
+                if isinstance(gen, (ast.GeneratorExp, ast.ListComp)) and len(gen.generators) == 1 and not gen.generators[0].ifs:
+                    g = gen.generators[0]
+                    var = g.target.id if isinstance(g.target, ast.Name) else None
+                    ok = _norm(g.iter) == f"{key.params[0]}[PARAMS]" and _norm(gen.elt) == f"{key.params[1]}[{var}]"
     rep.ob(rule, "group-key-is-sorted-parameter-names", ok, key.loc(), f"param-group key `{_norm(rets[0].value) if rets else None}` must be the joined *sorted* names of the group's parameters only")
     sd = repo.method(DS, "distributed_state_dict")
     comps = [n for n in ast.walk(sd.node) if isinstance(n, ast.DictComp) and _norm(n.generators[0].iter) == "group.items()"]
